@@ -29,7 +29,7 @@ MARK = b"\x7f"
 DRIVERS = ["h5", "ih5", "mf"]
 GROUPS = ["a", "b", "c"]
 LEAVES = ["f", "g", "h", "x"]
-TRANSPORT = {"copy", "move", "gcopy", "gmove", "bnd", "reopen", "merge"}
+TRANSPORT = {"copy", "move", "rcopy", "rmove", "gcopy", "gmove", "bnd", "reopen", "merge"}
 # what h5py / IH5 / MetadorContainer raise to refuse an operation; anything else is class "E"
 REFUSALS = (ValueError, KeyError, OSError, RuntimeError, TypeError)
 # Every history first embeds an anchor file that is never touched again: deleting the last
@@ -80,6 +80,23 @@ def corpus(rng, thorough: bool) -> List[Tuple[str, bytes]]:
 #   ["gcopy"|"gmove", g, q]     group copy/move (model: one SCopy/SMove per dataset below g, see group_pairs)
 #   ["bnd"] ["reopen"] ["merge"]
 
+def _join(a: str, b: str) -> str:
+    return f"{a}/{b}" if a else b
+
+
+def norm(op):
+    """Receiver-relative copy/move -> the plain operation it designates under h5py semantics
+    (source relative to the receiver group; destination absolute, relative to the receiver, or
+    a group object under which the source's name is kept):
+        ["rcopy"|"rmove", receiver, source_rel, dkind, dst]   dkind: abs | rel | grp"""
+    if op[0] not in ("rcopy", "rmove"):
+        return op
+    _, recv, rel, dkind, dst = op
+    s = _join(recv, rel)
+    d = dst.lstrip("/") if dkind == "abs" else _join(recv, dst) if dkind == "rel" else _join(dst, rel.rsplit("/", 1)[-1])
+    return ["copy" if op[0] == "rcopy" else "move", s, d]
+
+
 def group_pairs(ops, driver: str) -> List[List[List[str]]]:
     """Per step: the (source, destination) dataset pairs a group copy/move stands for, i.e. the
     datasets below the group at that moment.  Computed with a minimal liveness shadow of the
@@ -87,7 +104,7 @@ def group_pairs(ops, driver: str) -> List[List[List[str]]]:
     model operations and to know which paths to observe."""
     live: set = set()
     out: List[List[List[str]]] = []
-    for op in ops:
+    for op in map(norm, ops):
         k = op[0]
         pairs: List[List[str]] = []
         if k == "pack":
@@ -117,7 +134,7 @@ def group_pairs(ops, driver: str) -> List[List[List[str]]]:
 def paths_of(ops) -> List[str]:
     out: List[str] = []
     gp = [a + b for a, b in zip(group_pairs(ops, "h5"), group_pairs(ops, "ih5"))]
-    for op, pairs in zip(ops, gp):
+    for op, pairs in zip(map(norm, ops), gp):
         k = op[0]
         ps = []
         if k in ("pack", "set", "write", "del", "xcreate", "xwrite"):
@@ -145,8 +162,41 @@ def templates(bs: bytes, other: bytes) -> List[List[Any]]:
          ["bnd"], ["del", "f"], ["merge"], ["copy", "g", "f"], ["bnd"], ["del", "g"], ["reopen"]],
         [["pack", "f", bs], ["pack", "f", other], ["copy", "f", "f"], ["copy", "nope", "g"],
          ["del", "nope"], ["copy", "f", "g"], ["copy", "f", "g"], ["merge"], ["merge"], ["bnd"], ["bnd"], ["del", "g"]],
+        # same-named files with different contents at three levels; copies / moves issued on sub-groups
+        [["pack", "data.bin", other], ["pack", "sub/data.bin", bs], ["pack", "sub/deep/data.bin", other + b"!"], ["pack", "oth/x", b"o"],
+         ["bnd"], ["rcopy", "sub", "data.bin", "abs", "/backup.bin"], ["rcopy", "sub", "deep/data.bin", "rel", "copy2.bin"],
+         ["rcopy", "sub/deep", "data.bin", "grp", "oth"], ["rcopy", "sub", "data.bin", "abs", "/oth/abs.bin"], ["bnd"],
+         ["rcopy", "", "sub/data.bin", "grp", "sub/deep"], ["rmove", "sub", "data.bin", "abs", "/moved.bin"],
+         ["rmove", "sub/deep", "data.bin", "rel", "renamed.bin"], ["rcopy", "sub", "deep/renamed.bin", "grp", ""],
+         ["merge"], ["rcopy", "oth", "data.bin", "rel", "again.bin"], ["rmove", "", "data.bin", "rel", "sub/data.bin"], ["reopen"]],
+        [["pack", "sub/deep/data.bin", bs], ["pack", "sub/data.bin", other], ["pack", "data.bin", b"root twin"], ["bnd"],
+         ["rcopy", "sub/deep", "data.bin", "abs", "/c1.bin"], ["rcopy", "sub", "deep/data.bin", "abs", "/sub/c2.bin"],
+         ["rmove", "sub", "deep/data.bin", "rel", "deep/m.bin"], ["bnd"], ["rcopy", "sub/deep", "m.bin", "grp", "sub"],
+         ["rcopy", "sub", "data.bin", "grp", "sub/deep"], ["rcopy", "sub/deep", "data.bin", "abs", "/sub/deep/again.bin"],
+         ["merge"], ["rmove", "sub/deep", "data.bin", "abs", "/top.bin"], ["reopen"]],
     ]
     return T
+
+
+def relative_form(rng, kind: str, s: str, d: str, live) -> List[Any]:
+    """The same copy/move, spelled as a call on one of the groups above the source (or the
+    root) with a source path relative to it and an absolute / relative / group-object
+    destination, where the spelling exists."""
+    segs = s.split("/")
+    r = rng.random()
+    if r < 0.35:
+        return [kind, s, d]
+    cut = rng.randrange(len(segs))                 # 0 = root receiver
+    recv, rel = "/".join(segs[:cut]), "/".join(segs[cut:])
+    forms = [["abs", "/" + d]]
+    if not recv or d.startswith(recv + "/"):
+        forms.append(["rel", d[len(recv) + 1:] if recv else d])
+    dgrp, _, dname = d.rpartition("/")
+    if kind == "copy" and dname == segs[-1] and (not dgrp or any(p.startswith(dgrp + "/") for p in live)):
+        forms.append(["grp", dgrp])
+        forms.append(["grp", dgrp])
+    dkind, dst = rng.choice(forms)
+    return ["r" + kind, recv, rel, dkind, dst]
 
 
 def gen_history(rng, bs: bytes, pool: List[bytes], nops: int, with_marker: bool) -> List[Any]:
@@ -205,7 +255,7 @@ def gen_history(rng, bs: bytes, pool: List[bytes], nops: int, with_marker: bool)
                 bare.add(d)
             if s in strs:
                 strs.add(d)
-            ops.append([kind, s, d])
+            ops.append(relative_form(rng, kind, s, d, live))
             live[d] = live[s]
             if kind == "move":
                 del live[s]
@@ -470,7 +520,7 @@ def model_ops(ops, driver: str) -> Tuple[List[Any], List[Tuple[int, int]]]:
     operations ((-1, -1): no model operation, the step must be accepted)."""
     mops: List[Any] = []
     spans: List[Tuple[int, int]] = []
-    for op, pairs in zip(ops, group_pairs(ops, driver)):
+    for op, pairs in zip(map(norm, ops), group_pairs(ops, driver)):
         k = op[0]
         start = len(mops)
         if k == "pack":
@@ -584,6 +634,11 @@ class _Run:
             c[op[1]].attrs[op[2]] = np.void(b"q")
         elif k == "del":
             del c[op[1]]
+        elif k in ("rcopy", "rmove"):
+            _, recv, rel, dkind, dst = op
+            g = c[recv] if recv else c
+            dest = dst if dkind != "grp" else (c[dst] if dst else c)
+            (g.copy if k == "rcopy" else g.move)(rel, dest)
         elif k in ("copy", "gcopy"):
             c.copy(op[1], op[2])
         elif k in ("move", "gmove"):
@@ -722,7 +777,7 @@ def oracle(case, result) -> Optional[Dict[str, Any]]:
     paths = result["paths"]
     labels: Dict[str, Tuple[bytes, bool, str]] = {}       # path -> (bytes, metadata expected exact?, class)
     prev: Dict[str, Any] = {}
-    for i, (op, st) in enumerate(zip(ops, result["steps"])):
+    for i, (op, st) in enumerate(zip(map(norm, ops), result["steps"])):
         res, obs, err, mk = st
         if res == "X":
             if err == "timeout":
